@@ -7,16 +7,16 @@ Require Import MW.Ledger.FaultProofs.
 Section ReloadProofs.
 Variable derive : nat -> N.
 
-Lemma step_store : forall e s,
-  let '(s1, res) := step derive true e s in
+Lemma step_store : forall u e s,
+  let '(s1, res) := step derive true u e s in
   match res with
   | Some a => a = derive (s_next s) /\ s_next s1 = S (s_next s)
   | None => s_next s1 = s_next s /\ s_rows s1 = s_rows s
   end.
 Proof.
-  intros [f|l] s; cbn [step].
+  intros u [f|l] s; cbn [step].
   - unfold new_address. destruct (s_cache s) as [c|]; [|split; reflexivity].
-    destruct f as [|l]; cbn; split; reflexivity.
+    destruct f as [|l]; [|destruct u]; cbn; split; reflexivity.
   - cbn. split; reflexivity.
 Qed.
 
@@ -24,15 +24,15 @@ Qed.
    partially, not at all) and whatever loads happen in between, the addresses handed out are the
    children s_next, s_next+1, ... without gap or repetition, and the stored child number has
    advanced by exactly the number of addresses handed out *)
-Lemma run_indices : forall evs s,
-  let '(s', outs) := run derive true evs s in
+Lemma run_indices : forall u evs s,
+  let '(s', outs) := run derive true u evs s in
   outs = map derive (seq (s_next s) (length outs)) /\ s_next s' = s_next s + length outs.
 Proof.
-  induction evs as [|e r IH]; intros s.
+  intros u. induction evs as [|e r IH]; intros s.
   - cbn. split; [reflexivity|lia].
-  - cbn [run]. pose proof (step_store e s) as Hst.
-    destruct (step derive true e s) as [s1 res].
-    specialize (IH s1). destruct (run derive true r s1) as [s2 l]. destruct IH as [IH1 IH2].
+  - cbn [run]. pose proof (step_store u e s) as Hst.
+    destruct (step derive true u e s) as [s1 res].
+    specialize (IH s1). destruct (run derive true u r s1) as [s2 l]. destruct IH as [IH1 IH2].
     destruct res as [a|].
     + destruct Hst as [Ha Hn]. cbn [length seq map]. rewrite Hn in IH1, IH2. split.
       * rewrite Ha. f_equal. exact IH1.
@@ -43,12 +43,12 @@ Qed.
 (* every call that is not struck by a fault succeeds as long as no reload has lost the keystore *)
 Lemma run_count : forall evs s,
   s_cache s <> None -> no_load_fails evs ->
-  length (snd (run derive true evs s)) = clean_calls evs /\ s_cache (fst (run derive true evs s)) <> None.
+  length (snd (run derive true false evs s)) = clean_calls evs /\ s_cache (fst (run derive true false evs s)) <> None.
 Proof.
   induction evs as [|e r IH]; intros s Hc Hn.
   - cbn. split; [reflexivity|exact Hc].
   - inversion Hn as [|e' r' He Hr]; subst. cbn [run].
-    destruct (step derive true e s) as [s1 res] eqn:Hs.
+    destruct (step derive true false e s) as [s1 res] eqn:Hs.
     assert (H1 : s_cache s1 <> None /\ (res <> None <-> match e with ENew NNone => True | _ => False end)).
     { destruct e as [f|l]; cbn [step] in Hs.
       - unfold new_address in Hs. destruct (s_cache s) as [c|] eqn:Hcs; [|contradiction].
@@ -59,7 +59,7 @@ Proof.
       - inversion Hs; subst. cbn [s_cache]. destruct l; cbn; try contradiction;
           (split; [discriminate|split; [intros H; contradiction|intros []]]). }
     destruct H1 as [Hc1 Hres]. specialize (IH s1 Hc1 Hr).
-    destruct (run derive true r s1) as [s2 l]. cbn [fst snd] in *. destruct IH as [IH1 IH2].
+    destruct (run derive true false r s1) as [s2 l]. cbn [fst snd] in *. destruct IH as [IH1 IH2].
     split; [|exact IH2].
     unfold clean_calls in *. cbn [filter].
     destruct e as [[|l0]|l0]; destruct res as [a|]; cbn [length];
@@ -81,11 +81,11 @@ Proof.
     + right. split; [exact H2|]. apply negb_true_iff, Nat.eqb_neq. exact H1.
 Qed.
 
-Lemma step_rows_ok : forall e s, rows_ok derive s -> rows_ok derive (fst (step derive true e s)).
+Lemma step_rows_ok : forall u e s, rows_ok derive s -> rows_ok derive (fst (step derive true u e s)).
 Proof.
-  intros [f|l] s Hok; cbn [step]; [|exact Hok].
+  intros u [f|l] s Hok; cbn [step]; [|exact Hok].
   unfold new_address. destruct (s_cache s) as [c|]; [|exact Hok].
-  destruct f as [|l]; cbn [fst]; [|exact Hok].
+  destruct f as [|l]; cbn [fst]; [|destruct u; exact Hok].
   intros j b. cbn [s_rows s_next]. rewrite set_row_in, (Hok j b). split.
   - intros [[H1 H2]|[H1 [H2 H3]]]; subst; split; try reflexivity; lia.
   - intros [H1 H2]. destruct (Nat.eq_dec j (s_next s)) as [E|E].
@@ -93,22 +93,22 @@ Proof.
     + right. split; [exact E|split; [lia|exact H2]].
 Qed.
 
-Lemma run_rows_ok : forall evs s, rows_ok derive s -> rows_ok derive (fst (run derive true evs s)).
+Lemma run_rows_ok : forall u evs s, rows_ok derive s -> rows_ok derive (fst (run derive true u evs s)).
 Proof.
-  induction evs as [|e r IH]; intros s Hok; [exact Hok|].
-  cbn [run]. pose proof (step_rows_ok e s Hok) as H1.
-  destruct (step derive true e s) as [s1 res]. specialize (IH s1 H1).
-  destruct (run derive true r s1) as [s2 l]. exact IH.
+  intros u. induction evs as [|e r IH]; intros s Hok; [exact Hok|].
+  cbn [run]. pose proof (step_rows_ok u e s Hok) as H1.
+  destruct (step derive true u e s) as [s1 res]. specialize (IH s1 H1).
+  destruct (run derive true u r s1) as [s2 l]. exact IH.
 Qed.
 
 (* a stale mirror is never observable: two states that differ in the mirror only hand out the
    same addresses and end in stores that are equal (and in tables that differ in the mirror only) *)
-Lemma step_mirror_blind : forall e s1 s2,
+Lemma step_mirror_blind : forall u e s1 s2,
   same_but_mirror s1 s2 ->
-  snd (step derive true e s1) = snd (step derive true e s2) /\
-  same_but_mirror (fst (step derive true e s1)) (fst (step derive true e s2)).
+  snd (step derive true u e s1) = snd (step derive true u e s2) /\
+  same_but_mirror (fst (step derive true u e s1)) (fst (step derive true u e s2)).
 Proof.
-  intros e s1 s2 [Hn [Hr Hc]].
+  intros u e s1 s2 [Hn [Hr Hc]].
   assert (Hload : forall l, same_but_mirror {| s_next := s_next s1; s_rows := s_rows s1; s_cache := load l s1 |}
                                             {| s_next := s_next s2; s_rows := s_rows s2; s_cache := load l s2 |}).
   { intros l. unfold same_but_mirror. cbn [s_next s_rows s_cache]. split; [exact Hn|split; [exact Hr|]].
@@ -119,22 +119,50 @@ Proof.
   - destruct f as [|l]; cbn [fst snd].
     + rewrite Hn. split; [reflexivity|].
       unfold same_but_mirror. cbn [s_next s_rows s_cache c_addrs]. rewrite Hr, Hc. repeat split; reflexivity.
-    + split; [reflexivity|apply Hload].
+    + destruct u; cbn [fst snd]; (split; [reflexivity|]); [|apply Hload].
+      unfold same_but_mirror. rewrite H1, H2. repeat split; assumption.
   - cbn [fst snd]. split; [reflexivity|]. unfold same_but_mirror. rewrite H1, H2. repeat split; assumption.
 Qed.
 
-Lemma run_mirror_blind : forall evs s1 s2,
+Lemma run_mirror_blind : forall u evs s1 s2,
   same_but_mirror s1 s2 ->
-  snd (run derive true evs s1) = snd (run derive true evs s2) /\
-  same_but_mirror (fst (run derive true evs s1)) (fst (run derive true evs s2)).
+  snd (run derive true u evs s1) = snd (run derive true u evs s2) /\
+  same_but_mirror (fst (run derive true u evs s1)) (fst (run derive true u evs s2)).
 Proof.
-  induction evs as [|e r IH]; intros s1 s2 H.
+  intros u. induction evs as [|e r IH]; intros s1 s2 H.
   - cbn. split; [reflexivity|exact H].
-  - cbn [run]. destruct (step_mirror_blind e s1 s2 H) as [Hres Hs].
-    destruct (step derive true e s1) as [t1 r1]. destruct (step derive true e s2) as [t2 r2].
+  - cbn [run]. destruct (step_mirror_blind u e s1 s2 H) as [Hres Hs].
+    destruct (step derive true u e s1) as [t1 r1]. destruct (step derive true u e s2) as [t2 r2].
     cbn [fst snd] in Hres, Hs. subst r2. specialize (IH t1 t2 Hs).
-    destruct (run derive true r t1) as [u1 l1]. destruct (run derive true r t2) as [u2 l2].
+    destruct (run derive true u r t1) as [u1 l1]. destruct (run derive true u r t2) as [u2 l2].
     cbn [fst snd] in *. destruct IH as [IH1 IH2]. subst l2. split; [reflexivity|exact IH2].
+Qed.
+
+(* with the in-memory repair a failed NewAddress cannot lose the keystore: every call not struck by a
+   fault succeeds, whatever the faults of the others *)
+Lemma run_count_mem_undo : forall evs s,
+  s_cache s <> None -> no_lost_load evs ->
+  length (snd (run derive true true evs s)) = clean_calls evs /\ s_cache (fst (run derive true true evs s)) <> None.
+Proof.
+  induction evs as [|e r IH]; intros s Hc Hn.
+  - cbn. split; [reflexivity|exact Hc].
+  - inversion Hn as [|e' r' He Hr]; subst. cbn [run].
+    destruct (step derive true true e s) as [s1 res] eqn:Hs.
+    assert (H1 : s_cache s1 <> None /\ (res <> None <-> match e with ENew NNone => True | _ => False end)).
+    { destruct e as [f|l]; cbn [step] in Hs.
+      - unfold new_address in Hs. destruct (s_cache s) as [c|] eqn:Hcs; [|contradiction].
+        destruct f as [|l].
+        + inversion Hs; subst. cbn. split; [discriminate|split; [trivial|discriminate]].
+        + inversion Hs; subst. rewrite Hcs. split; [discriminate|split; [intros H; contradiction|intros []]].
+      - inversion Hs; subst. cbn [s_cache]. destruct l; cbn; try contradiction;
+          (split; [discriminate|split; [intros H; contradiction|intros []]]). }
+    destruct H1 as [Hc1 Hres]. specialize (IH s1 Hc1 Hr).
+    destruct (run derive true true r s1) as [s2 l]. cbn [fst snd] in *. destruct IH as [IH1 IH2].
+    split; [|exact IH2].
+    unfold clean_calls in *. cbn [filter].
+    destruct e as [[|l0]|l0]; destruct res as [a|]; cbn [length];
+      try (exfalso; apply (proj1 Hres); discriminate);
+      try (exfalso; apply (proj2 Hres I); reflexivity); lia.
 Qed.
 
 End ReloadProofs.
@@ -178,13 +206,13 @@ Qed.
 
 Lemma run_refines_attempts : forall (derive : N -> nat -> N) repaired fs ls k w s,
   Forall (fun l => l <> LoadFails) ls -> s_cache s <> None -> s_next s = next_index (k_store k) w ->
-  snd (run (derive w) true (events_of fs ls) s) = snd (attempts derive repaired fs k w).
+  snd (run (derive w) true false (events_of fs ls) s) = snd (attempts derive repaired fs k w).
 Proof.
   intros derive repaired fs ls k w s Hls Hc Hn.
   destruct (events_of_ok fs ls Hls) as [H1 H2].
-  pose proof (run_indices (derive w) (events_of fs ls) s) as Hi.
+  pose proof (run_indices (derive w) false (events_of fs ls) s) as Hi.
   pose proof (run_count (derive w) (events_of fs ls) s Hc H1) as [Hcnt _].
-  destruct (run (derive w) true (events_of fs ls) s) as [s' outs]. cbn [snd] in *. destruct Hi as [Hi _].
+  destruct (run (derive w) true false (events_of fs ls) s) as [s' outs]. cbn [snd] in *. destruct Hi as [Hi _].
   rewrite Hi, Hcnt, H2, Hn. symmetry. apply (proj1 (attempts_indices derive repaired fs k w)).
 Qed.
 
@@ -205,13 +233,13 @@ Definition evs_b : list event := [ELoad LoadPartial; ENew NNone].
 
 Lemma new_address_mirror_refuted :
   (no_load_fails evs_a /\ rows_ok derive0 fresh /\
-   run derive0 false evs_a fresh =
+   run derive0 false false evs_a fresh =
      ({| s_next := 2; s_rows := [(1, 101%N); (0, 100%N)];
          s_cache := Some {| c_addrs := [101; 100; 101; 100]%N; c_mirror := 2 |} |}, [100; 101; 100; 101]%N) /\
-   snd (run derive0 true evs_a fresh) = [100; 101; 102; 103]%N /\ s_next (fst (run derive0 true evs_a fresh)) = 4) /\
+   snd (run derive0 true false evs_a fresh) = [100; 101; 102; 103]%N /\ s_next (fst (run derive0 true false evs_a fresh)) = 4) /\
   (no_load_fails evs_b /\ rows_ok derive0 three /\
-   snd (run derive0 false evs_b three) = [100]%N /\ s_next (fst (run derive0 false evs_b three)) = 1 /\
-   snd (run derive0 true evs_b three) = [103]%N /\ s_next (fst (run derive0 true evs_b three)) = 4).
+   snd (run derive0 false false evs_b three) = [100]%N /\ s_next (fst (run derive0 false false evs_b three)) = 1 /\
+   snd (run derive0 true false evs_b three) = [103]%N /\ s_next (fst (run derive0 true false evs_b three)) = 4).
 Proof.
   split.
   - split; [repeat constructor|split].
@@ -223,3 +251,13 @@ Proof.
       * intros [H1 H2]. subst a. destruct i as [|[|[|i]]]; [right; right; left|right; left|left|lia]; reflexivity.
     + vm_compute. repeat split; reflexivity.
 Qed.
+
+(* the code as it is, the reload of a failed NewAddress fails altogether (BeginReadTx, or a read other
+   than the child numbers): the keystore is out of the table, the next call fails although storage works
+   (R2 of Properties/C18.v in this model); with the in-memory repair the next call succeeds *)
+Definition evs_c : list event := [ENew NNone; ENew (NFail LoadFails); ENew NNone].
+
+Lemma new_address_lost_keystore_refuted :
+  run derive0 true false evs_c fresh = ({| s_next := 1; s_rows := [(0, 100%N)]; s_cache := None |}, [100%N]) /\
+  snd (run derive0 true true evs_c fresh) = [100; 101]%N.
+Proof. vm_compute. split; reflexivity. Qed.
